@@ -701,9 +701,16 @@ class PrenexNormalizer(DagWalker):
                 return (quantifiers + [(self.mgr.ForAll, nq)]), matrix
         return quantifiers, matrix
 
-    @handles(op.THEORY_OPERATORS)
+    @handles(op.THEORY_OPERATORS - {op.ARRAY_SELECT})
     def walk_theory_op(self, formula: FNode, **kwargs):
         #pylint: disable=unused-argument
+        return None
+
+    def walk_array_select(self, formula: FNode, **kwargs) -> Optional[Tuple[List[Any], FNode]]:
+        #pylint: disable=unused-argument
+        # A select over an array of booleans is an atom
+        if self.env.stc.get_type(formula).is_bool_type():
+            return [], formula
         return None
 
 # EOC PrenexNormalizer
